@@ -1,7 +1,151 @@
 import Rie.Oracle.Core
-/-! Oracle adaptors (line protocol ↔ model) — filled in by the Env work package. -/
+import Rie.Model.Env
+
+/-! Oracle adaptors for the `Env` model (property C16).
+
+Protocol encoding: a byte string is the word `x<hex>`, a map is the word
+`m<hexk>:<hexv>,<hexk>:<hexv>,…` (`m` alone = empty map). A byte `b` becomes the character with
+code point `b` (see `Rie.Model.Env`). Maps are printed one entry per key, sorted by key. -/
+namespace Rie.Oracle.EnvAd
+open Rie Rie.Env Rie.Oracle
+
+def hexVal (c : Char) : Option Nat :=
+  if '0' ≤ c ∧ c ≤ '9' then some (c.toNat - '0'.toNat)
+  else if 'a' ≤ c ∧ c ≤ 'f' then some (c.toNat - 'a'.toNat + 10)
+  else if 'A' ≤ c ∧ c ≤ 'F' then some (c.toNat - 'A'.toNat + 10)
+  else none
+
+def unhexChars : List Char → Option (List Char)
+  | [] => some []
+  | a :: b :: r => do
+    let x ← hexVal a
+    let y ← hexVal b
+    let rest ← unhexChars r
+    some (Char.ofNat (16 * x + y) :: rest)
+  | [_] => none
+
+def unhexRaw (s : String) : Option String := (unhexChars s.toList).map String.ofList
+
+/-- `x<hex>` -/
+def unhx (w : String) : Option String :=
+  match w.toList with
+  | 'x' :: r => (unhexChars r).map String.ofList
+  | _ => none
+
+def hexDigit (n : Nat) : Char :=
+  if n < 10 then Char.ofNat ('0'.toNat + n) else Char.ofNat ('a'.toNat + (n - 10))
+
+def hexOf (s : String) : String :=
+  String.ofList (s.toList.flatMap fun c =>
+    if c.toNat < 256 then [hexDigit (c.toNat / 16), hexDigit (c.toNat % 16)] else ['?', '?'])
+
+/-- `m<hexk>:<hexv>,…` -/
+def unmp (w : String) : Option Layer :=
+  match w.toList with
+  | 'm' :: r =>
+    if r.isEmpty then some []
+    else (String.ofList r |>.splitOn ",").mapM fun e =>
+      match e.splitOn ":" with
+      | [k, v] => do some (← unhexRaw k, ← unhexRaw v)
+      | _ => none
+  | _ => none
+
+def sortByKey (m : Layer) : Layer := m.mergeSort fun a b => !(b.1 < a.1)
+
+def showMap (m : Layer) : String :=
+  ",".intercalate ((sortByKey (dedup m)).map fun p => hexOf p.1 ++ ":" ++ hexOf p.2)
+
+def parseIntWord (w : String) : Option Int :=
+  match w.toList with
+  | '-' :: r => (String.ofList r).toNat?.map fun n => -(n : Int)
+  | _ => w.toNat?.map fun n => (n : Int)
+
+def parseEnvOp : List String → Option Op
+  | ["api", a] => do some (.storeRuntimeAPI (← unhx a))
+  | ["sethandler", a] => do some (.setHandler (← unhx a))
+  | ["execenv", a] => do some (.setExecutionEnv (← unhx a))
+  | ["taskroot", a] => do some (.setTaskRoot (← unhx a))
+  | ["runtimedir", a] => do some (.setRuntimeDir (← unhx a))
+  | ["init", m, h, ak, sk, st, fn, fv] => do
+    some (.storeFromInit (← unmp m) (← unhx h) (← unhx ak) (← unhx sk) (← unhx st) (← unhx fn) (← unhx fv))
+  | ["initcaching", host, port, m, h, fn, fv, tok] => do
+    some (.storeFromInitCaching (← unhx host) (← parseIntWord port) (← unmp m) (← unhx h) (← unhx fn)
+      (← unhx fv) (← unhx tok))
+  | ["cli", m] => do some (.storeFromCLI (← unmp m))
+  | _ => none
+
+def showEnvironment (e : Environment) : String :=
+  let r := if e.ready then "1" else "0"
+  let rt := if e.ready then showMap (runtimeEnv e) else "-"
+  let ag := if e.ready then showMap (agentEnv e) else "-"
+  s!"ready={r} cu={showMap e.customer} ra={showMap e.rapid} pl={showMap e.platform} ru={showMap e.runtime} un={showMap e.platformUnreserved} cr={showMap e.credentials} rt={rt} ag={ag}"
+
+/-- `init <process-env map>`; `op <mutator> …` → all six layers and, once both flags are set, the
+    maps of `RuntimeExecEnv()` and `AgentExecEnv()`; `op custenv` → `CustomerEnvironmentVariables()`
+    of the process environment. -/
+def envModel : Model where
+  σ := Layer × Environment
+  init := fun
+    | [m] => do
+      let proc ← unmp m
+      some (proc, newEnvironment proc)
+    | _ => none
+  step := fun s ws =>
+    match ws with
+    | ["custenv"] => some (s, s!"cust={showMap (customerEnvironmentVariables (s.1.map renderKV))}")
+    | _ => do
+      let o ← parseEnvOp ws
+      let e := Env.step s.2 o
+      some ((s.1, e), showEnvironment e)
+
+def showSplit : Option (String × String) → String
+  | some (k, v) => s!"ok:{hexOf k}:{hexOf v}"
+  | none => "none"
+
+/-- `op split x<s>` → result of the cut; `op kv x<k> x<v>` → the rendered string and its cut. -/
+def envSplitModel : Model where
+  σ := Unit
+  init := fun _ => some ()
+  step := fun _ ws =>
+    match ws with
+    | ["split", s] => do
+      let s ← unhx s
+      some ((), s!"sev={showSplit (split s)} front={showSplit (split s)}")
+    | ["kv", k, v] => do
+      let k ← unhx k
+      let v ← unhx v
+      let r := renderKV (k, v)
+      some ((), s!"kv={hexOf r} sev={showSplit (split r)}")
+    | _ => none
+
+def sortStrings (l : List String) : List String := l.mergeSort fun a b => !(b < a)
+
+def showEnviron (m : Layer) : String :=
+  ",".intercalate ((sortStrings ((dedup m).map renderKV)).map hexOf)
+
+/-- End-to-end: `init <environ map> x<handler arg> x<runtime api addr> <0|1 caching> x<host> <port>
+    x<token>`; `op runtime` / `op agent` → the `KEY=VALUE` strings the child process must see. -/
+def envE2EModel : Model where
+  σ := Environment
+  init := fun
+    | [m, h, a, c, host, port, tok] => do
+      let environ := (← unmp m).map renderKV
+      let caching ← if c == "1" then do some (some (← unhx host, ← parseIntWord port, ← unhx tok))
+                    else some none
+      let ops ← frontOps environ (← unhx h) (← unhx a) caching
+      some (run (newEnvironment (procOfEnviron environ)) ops)
+    | _ => none
+  step := fun e ws =>
+    match ws with
+    | ["runtime"] => some (e, if e.ready then showEnviron (runtimeEnv e) else "-")
+    | ["agent"] => some (e, if e.ready then showEnviron (agentEnv e) else "-")
+    | _ => none
+
+end Rie.Oracle.EnvAd
+
 namespace Rie.Oracle
 
-def envModels : List (String × Model) := []
+def envModels : List (String × Model) :=
+  [("env", EnvAd.envModel), ("envsplit", EnvAd.envSplitModel), ("enve2e", EnvAd.envE2EModel)]
 
 end Rie.Oracle
